@@ -1149,7 +1149,7 @@ theorem acc_step {pre : List Token} {acc1 acc2 : List Val} {a b : Val}
     pre ++ tokensList G1 (a :: acc1).reverse = tokensList G2 (b :: acc2).reverse := by
   simp only [List.reverse_cons, tokL_append, tokL_single, ← List.append_assoc, hacc, hab]
 
-theorem skipLoop_sim (f1 f2 : Inp → M → R Val) (h : ∀ i m, RelT G1 G2 (f1 i m) (f2 i m)) :
+theorem GenOpt.skipLoop_sim (f1 f2 : Inp → M → R Val) (h : ∀ i m, RelT G1 G2 (f1 i m) (f2 i m)) :
     ∀ k i m acc1 acc2 pre, pre ++ tokensList G1 acc1.reverse = tokensList G2 acc2.reverse →
       RelL G1 G2 pre (skipLoop f1 k i m acc1) (skipLoop f2 k i m acc2) := by
   intro k
@@ -1282,7 +1282,7 @@ theorem choiceLoop_fail_stk {α} (f : Node → Inp → M → R α) :
       have h3 := ih _ _ _ _ h
       exact h3
 
-theorem repLoop_sim (u1 u2 : Nat → Inp → M → R Val) (hu : ∀ idx i m, RelT G1 G2 (u1 idx i m) (u2 idx i m))
+theorem GenOpt.repLoop_sim (u1 u2 : Nat → Inp → M → R Val) (hu : ∀ idx i m, RelT G1 G2 (u1 idx i m) (u2 idx i m))
     (min : Nat) (max : Option Nat) :
     ∀ budget idx i m acc1 acc2 pre, pre ++ tokensList G1 acc1.reverse = tokensList G2 acc2.reverse →
       RelL G1 G2 pre (repLoop u1 min max budget idx i m acc1) (repLoop u2 min max budget idx i m acc2) := by
@@ -1339,7 +1339,7 @@ theorem repUnitP_sim (s1 s2 b1 b2 : Inp → M → R Val) (d1 d2 : Val) (k : Nat)
       show tokens G1 (mkSkipped _ _) = tokens G2 (mkSkipped _ _)
       rw [tok_mkSkipped, tok_mkSkipped, tokL_replicate G1 _ hd1, tokL_replicate G2 _ hd2, hab]
   · simp only [h0, if_false]
-    rcases (skipLoop_sim G1 G2 s1 s2 hs k i m [] [] [] rfl).cases with h1 | ⟨m', h1, h2⟩ | ⟨i', m', l1, l2, h1, h2, hl⟩
+    rcases (GenOpt.skipLoop_sim G1 G2 s1 s2 hs k i m [] [] [] rfl).cases with h1 | ⟨m', h1, h2⟩ | ⟨i', m', l1, l2, h1, h2, hl⟩
     · rw [h1]; exact RelW.oof_left _
     · rw [h1, h2]; simp only [RelW]
     · rw [h1, h2]
@@ -1419,7 +1419,7 @@ theorem parse_sim (hG : GRel G1 G2) :
     intro a b hrw inh i m
     have hskip : ∀ k i m, RelL G1 G2 [] (skipLoop (parse G1 uni n false G1.skipped) k i m [])
         (skipLoop (parse G2 uni n false G2.skipped) k i m []) := fun k i m =>
-      skipLoop_sim G1 G2 _ _ (ih _ _ hG.skipped false) k i m [] [] [] rfl
+      GenOpt.skipLoop_sim G1 G2 _ _ (ih _ _ hG.skipped false) k i m [] [] [] rfl
     have hcheck : ∀ a b, Rw a b → ∀ inh i m,
         RelW (fun _ _ => True) (check G1 uni n inh a i m) (check G2 uni n inh b i m) := by
       intro a b hab inh i m
@@ -1472,7 +1472,7 @@ theorem parse_sim (hG : GRel G1 G2) :
     | rep hab =>
       rename_i sk mn mx x y
       simp only [parse]
-      rcases (repLoop_sim G1 G2 _ _ (repUnitP_sim G1 G2 _ _ _ _ _ _ (skipCount sk inh)
+      rcases (GenOpt.repLoop_sim G1 G2 _ _ (repUnitP_sim G1 G2 _ _ _ _ _ _ (skipCount sk inh)
           (ih _ _ hG.skipped false) (ih _ _ hab inh) (tok_dflt G1) (tok_dflt G2)) mn mx n 0 i m [] [] [] rfl).cases
         with h1 | ⟨m', h1, h2⟩ | ⟨i', m', l1, l2, h1, h2, hl⟩
       · rw [h1]; exact RelW.oof_left _
@@ -1483,7 +1483,7 @@ theorem parse_sim (hG : GRel G1 G2) :
     | atomicRepeat hab =>
       rename_i x y
       simp only [parse]
-      rcases (repLoop_sim G1 G2 (fun _ i m => parse G1 uni n inh x i m) (fun _ i m => parse G2 uni n inh y i m)
+      rcases (GenOpt.repLoop_sim G1 G2 (fun _ i m => parse G1 uni n inh x i m) (fun _ i m => parse G2 uni n inh y i m)
           (fun _ i m => ih _ _ hab inh i m) 0 none (atomicBudget n) 0 i { m with trk := Tracker.new i } [] [] [] rfl).cases
         with h1 | ⟨m', h1, h2⟩ | ⟨i', m', l1, l2, h1, h2, hl⟩
       · rw [h1]; exact RelW.oof_left _
@@ -1576,7 +1576,7 @@ theorem parse_sim (hG : GRel G1 G2) :
           · rw [← parse_succ G1 uni n0 inh a i m ho]; exact ih a b hab inh i m
         have hskipLift : ∀ k i m, RelL G1 G2 [] (skipLoop (parse G1 uni n0 false G1.skipped) k i m [])
             (skipLoop (parse G2 uni (n0+1) false G2.skipped) k i m []) := fun k i m =>
-          skipLoop_sim G1 G2 _ _ (hlift _ _ hG.skipped false) k i m [] [] [] rfl
+          GenOpt.skipLoop_sim G1 G2 _ _ (hlift _ _ hG.skipped false) k i m [] [] [] rfl
         simp only [parse]
         rcases (hlift _ _ hx inh i m).cases with h1 | ⟨ma, h1, h2⟩ | ⟨ia, ma, vx, vx', h1, h2, hvx⟩
         · rw [h1]; exact RelW.oof_left _
@@ -1858,28 +1858,28 @@ theorem GRelStar.of_erase {G1 G2 G1' G2' : NodeGrammar} (h1 : G1.eraseBoxed = G1
 
 mutual
 /-- The rule structs a type expression mentions. -/
-def Node.refs : Node → List RuleId
-  | .seq _ xs => Node.refsList xs
-  | .choice xs => Node.refsList xs
-  | .opt a => a.refs
-  | .rep _ _ _ a => a.refs
-  | .atomicRepeat a => a.refs
-  | .pos a => a.refs
-  | .neg a => a.refs
-  | .push a => a.refs
+def Node.ruleRefs : Node → List RuleId
+  | .seq _ xs => Node.ruleRefsList xs
+  | .choice xs => Node.ruleRefsList xs
+  | .opt a => a.ruleRefs
+  | .rep _ _ _ a => a.ruleRefs
+  | .atomicRepeat a => a.ruleRefs
+  | .pos a => a.ruleRefs
+  | .neg a => a.ruleRefs
+  | .push a => a.ruleRefs
   | .ref r _ => [r]
-  | .array _ a => a.refs
-  | .pair a b => a.refs ++ b.refs
+  | .array _ a => a.ruleRefs
+  | .pair a b => a.ruleRefs ++ b.ruleRefs
   | _ => []
-def Node.refsList : List Node → List RuleId
+def Node.ruleRefsList : List Node → List RuleId
   | [] => []
-  | x :: xs => x.refs ++ Node.refsList xs
+  | x :: xs => x.ruleRefs ++ Node.ruleRefsList xs
 end
 
-theorem builtinNode_refs (name : String) : ∀ k, k ∈ (builtinNode name).refs → k = 0 := by
+theorem builtinNode_refs (name : String) : ∀ k, k ∈ (builtinNode name).ruleRefs → k = 0 := by
   intro k hk
   unfold builtinNode at hk
-  simp only [apply_ite Node.refs, Node.refs, Node.refsList, asciiDigit, asciiAlpha, asciiAlphaLower, asciiAlphaUpper,
+  simp only [apply_ite Node.ruleRefs, Node.ruleRefs, Node.ruleRefsList, asciiDigit, asciiAlpha, asciiAlphaLower, asciiAlphaUpper,
     List.append_nil] at hk
   simp at hk
   exact hk.2.2.2
@@ -1904,12 +1904,12 @@ theorem RefsOk.append {g : PGrammar} {e : PExpr} {ks ks' : List RuleId} (h : Ref
   · exact h' k hk
 
 theorem genExpr_refs (g : PGrammar) (sk : Flag) : ∀ e : PExpr,
-    RefsOk g e (genExpr g sk e).refs ∧ RefsOk g e (Node.refsList (genSeqSpine g sk e)) ∧
-    RefsOk g e (Node.refsList (genChoiceSpine g sk e)) := by
+    RefsOk g e (genExpr g sk e).ruleRefs ∧ RefsOk g e (Node.ruleRefsList (genSeqSpine g sk e)) ∧
+    RefsOk g e (Node.ruleRefsList (genChoiceSpine g sk e)) := by
   intro e
   induction e with
   | ident name =>
-    have h1 : RefsOk g (.ident name) (genExpr g sk (.ident name)).refs := by
+    have h1 : RefsOk g (.ident name) (genExpr g sk (.ident name)).ruleRefs := by
       simp only [genExpr]
       intro k hk
       cases hi : g.indexOf name with
@@ -1918,50 +1918,50 @@ theorem genExpr_refs (g : PGrammar) (sk : Flag) : ∀ e : PExpr,
         exact Or.inl (builtinNode_refs name k hk)
       | some j =>
         rw [hi] at hk
-        simp only [Node.refs, List.mem_singleton] at hk
+        simp only [Node.ruleRefs, List.mem_singleton] at hk
         subst hk
         exact Or.inr ⟨name, by simp only [usedIdents, List.mem_singleton], by simpa using hi, Nat.succ_pos _⟩
     refine ⟨h1, ?_, ?_⟩
-    · simp only [genSeqSpine, Node.refsList, List.append_nil]; exact h1
-    · simp only [genChoiceSpine, Node.refsList, List.append_nil]; exact h1
+    · simp only [genSeqSpine, Node.ruleRefsList, List.append_nil]; exact h1
+    · simp only [genChoiceSpine, Node.ruleRefsList, List.append_nil]; exact h1
   | seq a b iha ihb =>
-    have h1 : RefsOk g (.seq a b) (genExpr g sk (.seq a b)).refs := by
-      simp only [genExpr, Node.refs, Node.refsList]
+    have h1 : RefsOk g (.seq a b) (genExpr g sk (.seq a b)).ruleRefs := by
+      simp only [genExpr, Node.ruleRefs, Node.ruleRefsList]
       exact (iha.1.mono (fun n hn => by simp only [usedIdents, List.mem_append]; exact Or.inl hn)).append
         (ihb.2.1.mono (fun n hn => by simp only [usedIdents, List.mem_append]; exact Or.inr hn))
     refine ⟨h1, ?_, ?_⟩
-    · simp only [genSeqSpine, Node.refsList]
+    · simp only [genSeqSpine, Node.ruleRefsList]
       exact (iha.1.mono (fun n hn => by simp only [usedIdents, List.mem_append]; exact Or.inl hn)).append
         (ihb.2.1.mono (fun n hn => by simp only [usedIdents, List.mem_append]; exact Or.inr hn))
-    · simp only [genChoiceSpine, Node.refsList, List.append_nil]; exact h1
+    · simp only [genChoiceSpine, Node.ruleRefsList, List.append_nil]; exact h1
   | choice a b iha ihb =>
-    have h1 : RefsOk g (.choice a b) (genExpr g sk (.choice a b)).refs := by
-      simp only [genExpr, Node.refs, Node.refsList]
+    have h1 : RefsOk g (.choice a b) (genExpr g sk (.choice a b)).ruleRefs := by
+      simp only [genExpr, Node.ruleRefs, Node.ruleRefsList]
       exact (iha.1.mono (fun n hn => by simp only [usedIdents, List.mem_append]; exact Or.inl hn)).append
         (ihb.2.2.mono (fun n hn => by simp only [usedIdents, List.mem_append]; exact Or.inr hn))
     refine ⟨h1, ?_, ?_⟩
-    · simp only [genSeqSpine, Node.refsList, List.append_nil]; exact h1
-    · simp only [genChoiceSpine, Node.refsList]
+    · simp only [genSeqSpine, Node.ruleRefsList, List.append_nil]; exact h1
+    · simp only [genChoiceSpine, Node.ruleRefsList]
       exact (iha.1.mono (fun n hn => by simp only [usedIdents, List.mem_append]; exact Or.inl hn)).append
         (ihb.2.2.mono (fun n hn => by simp only [usedIdents, List.mem_append]; exact Or.inr hn))
   | str s | insens s | range lo hi | peekSlice a b | skip needles =>
     refine ⟨?_, ?_, ?_⟩ <;>
-      simp only [genExpr, genSeqSpine, genChoiceSpine, Node.refs, Node.refsList, List.append_nil] <;>
+      simp only [genExpr, genSeqSpine, genChoiceSpine, Node.ruleRefs, Node.ruleRefsList, List.append_nil] <;>
       (intro k hk; cases hk)
   | posPred e ih | negPred e ih | opt e ih | rep e ih | repOnce e ih | push e ih | restoreOnErr e ih =>
     have h1 := ih.1
     refine ⟨?_, ?_, ?_⟩ <;>
-      simp only [genExpr, genSeqSpine, genChoiceSpine, Node.refs, Node.refsList, List.append_nil] <;>
+      simp only [genExpr, genSeqSpine, genChoiceSpine, Node.ruleRefs, Node.ruleRefsList, List.append_nil] <;>
       exact h1.mono (fun n hn => by simpa only [usedIdents] using hn)
   | repExact e n ih | repMin e n ih | repMax e n ih =>
     have h1 := ih.1
     refine ⟨?_, ?_, ?_⟩ <;>
-      simp only [genExpr, genSeqSpine, genChoiceSpine, Node.refs, Node.refsList, List.append_nil] <;>
+      simp only [genExpr, genSeqSpine, genChoiceSpine, Node.ruleRefs, Node.ruleRefsList, List.append_nil] <;>
       exact h1.mono (fun n hn => by simpa only [usedIdents] using hn)
   | repMinMax e n m ih =>
     have h1 := ih.1
     refine ⟨?_, ?_, ?_⟩ <;>
-      simp only [genExpr, genSeqSpine, genChoiceSpine, Node.refs, Node.refsList, List.append_nil] <;>
+      simp only [genExpr, genSeqSpine, genChoiceSpine, Node.ruleRefs, Node.ruleRefsList, List.append_nil] <;>
       exact h1.mono (fun n hn => by simpa only [usedIdents] using hn)
 
 end PestTyped
